@@ -17,7 +17,9 @@ CHECK_DEADLOCK FALSE
 
 
 def agent_models(tier, devs=True):
-    n = 4 if tier == 'thorough' else 3
+    # (with transfers and single-session termination in the model, 3 connections are 2.8 million states; a fourth
+    # does not fit the time a check may take)
+    n = 3
     runs = [ModelRun('TcpclAgent', AGENT_CFG % (n, '{}'), 'agent', workers=8,
                      note='two agents, <= %d connections (queued / negotiating / established / terminating), one transfer '
                           'per direction and connection, terminate of single sessions, shutdown and stop by either side '
@@ -25,7 +27,7 @@ def agent_models(tier, devs=True):
     if tier == 'thorough':
         live = AGENT_CFG.replace('SPECIFICATION Spec', 'SPECIFICATION FairSpec').replace(
             'CHECK_DEADLOCK FALSE', 'PROPERTY EndLive\nPROPERTY PeerLive\nCHECK_DEADLOCK FALSE')
-        runs.append(ModelRun('TcpclAgent', live % (3, '{}'), 'agent-live', workers=8, timeout=3000,
+        runs.append(ModelRun('TcpclAgent', live % (2, '{}'), 'agent-live', workers=8, timeout=6000,
                              note='liveness under weak fairness: every shutdown / stop request ends with the agent '
                                   'stopped and no connection of it open on either side'))
     if devs:
